@@ -206,6 +206,10 @@ func runC03(r *engine.Run) {
 		{"frm=bytes+command,fport=5", func() *lorawan.MACPayload {
 			return &lorawan.MACPayload{FPort: &p5, FRMPayload: []lorawan.Payload{&lorawan.DataPayload{Bytes: []byte{1, 2, 3}}, goodCmd()}}
 		}},
+		{"frm=bytes,fport=absent", func() *lorawan.MACPayload {
+			// application bytes without a port (the frame cannot be serialised; the bytes can be transformed)
+			return &lorawan.MACPayload{FRMPayload: []lorawan.Payload{&lorawan.DataPayload{Bytes: []byte{1, 2, 3, 4, 5, 6, 7, 8, 9}}}}
+		}},
 		{"fopts=out-of-range-command", func() *lorawan.MACPayload {
 			return &lorawan.MACPayload{FHDR: lorawan.FHDR{FOpts: []lorawan.Payload{badCmd()}}}
 		}},
@@ -244,6 +248,13 @@ func runC03(r *engine.Run) {
 		if err == nil && pubPrint(p) == before {
 			c.Fail("method/"+op+"/nil-without-transform", fmt.Sprintf("%s on a %v frame with %s returned nil and left the frame as it was (its content cannot be serialised, so nothing can have been transformed)", op, mt, form.name), nil)
 			return
+		}
+		if err == nil && form.name == "frm=bytes,fport=absent" {
+			// whatever key stream was applied, a transform that reports success preserves the length
+			if got, ok := opaqueBytes(p.MACPayload.(*lorawan.MACPayload).FRMPayload); !ok || len(got) != 9 {
+				c.Fail("method/"+op+"/length-not-preserved", fmt.Sprintf("%s on a %v frame without FPort carrying 9 bytes returned nil and left %d bytes", op, mt, len(got)), nil)
+				return
+			}
 		}
 		if err == nil {
 			c.Outcome("unserialisable/transformed-something(recorded)")
